@@ -75,6 +75,54 @@ theorem miss_then_refused_close (I : Nat) (t0 : Int) (ds : List Nat) (hlen : ds.
     exact (hall o (List.mem_of_mem_take ho)).2
   · intro k' h1 h2; omega
 
+/-- The general form: a session whose first `T` pings all fail (for whatever reason each) is closed at tick `T`. -/
+theorem all_failed_close (I : Nat) (t0 : Int) (scs : List Script) (hlen : scs.length = threshold t0)
+    (hf : ∀ sc ∈ scs, (observe (pingTimeout I) sc).isFail = true) :
+    (run I t0 scs).status = .closed ∧ (run I t0 scs).tick = threshold t0 := by
+  rw [closes_iff_T_consecutive]
+  have hl : (obsOf I scs).length = threshold t0 := by simp [obsOf, hlen]
+  have hall : ∀ o ∈ obsOf I scs, o.isFail = true ∧ o.isMnf = false := by
+    intro o ho
+    simp only [obsOf, List.mem_map] at ho
+    obtain ⟨sc, hsc, rfl⟩ := ho
+    have := hf sc hsc
+    cases hobs : observe (pingTimeout I) sc <;> simp_all [Outcome.isFail, Outcome.isMnf]
+  refine ⟨Nat.le_refl _, by omega, ?_, ?_, ?_⟩
+  · intro o ho
+    exact (hall o (List.mem_of_mem_take (List.mem_of_mem_drop ho))).1
+  · intro o ho
+    exact (hall o (List.mem_of_mem_take ho)).2
+  · intro k' h1 h2; omega
+
+/-- A server-initiated ping while the client has no standalone stream is a failed ping in every configuration of
+the streamable server transport (refused at once, or stored and never answered). -/
+theorem absent_stream_is_a_failed_ping (I d : Nat) (mode : ServerMode) :
+    (observe (pingTimeout I) (reading (absentStream mode) d)).isFail = true := by
+  cases mode <;> simp only [absentStream]
+  · exact refused_is_a_failed_ping I d
+  · simp [observe, reading, Outcome.isFail]
+  · exact refused_is_a_failed_ping I d
+
+/-- … but HOW LONG it takes differs: with an EventStore the ping is "delivered" to the store and uses up its whole
+timeout; without one (and on a stateless server) it fails after the `d` the refusal took. -/
+theorem absent_stream_duration (I d : Nat) (hd : d < pingTimeout I) :
+    (observe (pingTimeout I) (reading (absentStream .store) d)).dur = pingTimeout I ∧
+    (observe (pingTimeout I) (reading (absentStream .plain) d)).dur = d ∧
+    (observe (pingTimeout I) (reading (absentStream .stateless) d)).dur = d := by
+  simp [absentStream, observe, reading, hd, Outcome.dur]
+
+/-- **A client that keeps no standalone stream open loses its session at tick T, in every mode** — in particular a
+stateless server with KeepAlive closes the temporary session of a request that lasts T intervals. -/
+theorem absent_stream_closes (I : Nat) (t0 : Int) (mode : ServerMode) (ds : List Nat) (hlen : ds.length = threshold t0) :
+    (run I t0 (readWire (ds.map fun d => (absentStream mode, d)))).status = .closed ∧
+    (run I t0 (readWire (ds.map fun d => (absentStream mode, d)))).tick = threshold t0 := by
+  apply all_failed_close
+  · simp [readWire, hlen]
+  · intro sc hsc
+    simp only [readWire, List.map_map, List.mem_map, Function.comp] at hsc
+    obtain ⟨d, _, rfl⟩ := hsc
+    exact absent_stream_is_a_failed_ping I d mode
+
 /-- Non-vacuity: the reading of a wire script with an answer, two refusals, a silent ping and a -32601. -/
 example : readWire [(.result, 10), (.refused, 0), (.refused, 7), (.silent, 0), (.unsupported, 3)] =
     [⟨.answer, some 10, true⟩, ⟨.error, some 0, true⟩, ⟨.error, some 7, true⟩, ⟨.answer, none, true⟩,
